@@ -26,6 +26,10 @@ pub struct Case {
     /// all names come from the safe pool
     safe: bool,
     stream: bool,
+    /// Some(seed): the central directory lists the entries in a shuffled order (the local headers
+    /// stay in physical order) - legal, and what the two extractors walk differs then
+    #[serde(default)]
+    central_shuffle: Option<u64>,
 }
 
 /// (path relative to root) -> (kind, mode&0o7777, content hash / link target)
@@ -96,7 +100,19 @@ fn check(c: &Case, info: &mut Info) -> Result<(), String> {
             s
         })
         .collect();
-    let spec = ArchiveSpec::plain(entries);
+    let mut spec = ArchiveSpec::plain(entries);
+    if let Some(seed) = c.central_shuffle {
+        let n = spec.entries.len();
+        if n > 1 {
+            let mut o: Vec<usize> = (0..n).collect();
+            let mut g = crate::util::Sm(seed);
+            for i in (1..n).rev() {
+                let j = (g.next() % (i as u64 + 1)) as usize;
+                o.swap(i, j);
+            }
+            spec.central_order = Some(o);
+        }
+    }
     let b = build::build(&spec).map_err(|e| format!("harness: {e}"))?;
     // ---- sandbox: <base>/canary (absolute-path bait), <base>/l1/.../l12/target
     let base = PathBuf::from(format!("/var/tmp/zv-c07-{}-{}", std::process::id(), SEQ.fetch_add(1, std::sync::atomic::Ordering::Relaxed)));
@@ -275,6 +291,9 @@ fn hostile_name(base_canary: String) -> BoxedStrategy<String> {
         2 => comp().prop_map(move |c| format!("{base_canary}/{c}")),
         1 => (comp(), comp()).prop_map(|(a, b)| format!("{a}\0{b}")),
         1 => (comp(), comp()).prop_map(|(a, b)| format!("{a}\\..\\..\\{b}")),
+        // mixed separators: on Unix `a\b\c` is ONE component, so the '..' chain behind it climbs out
+        2 => (proptest::collection::vec(comp(), 2..5), 1usize..8, comp()).prop_map(|(v, n, c)| format!("{}/{}{}", v.join("\\"), "../".repeat(n), c)),
+        1 => (comp(), comp(), 1usize..4, comp()).prop_map(|(a, b, n, c)| format!("{a}/{b}\\x\\y/{}{}", "../".repeat(n + 1), c)),
         1 => (0usize..5, comp()).prop_map(|(n, c)| format!("./{}{}", "../".repeat(n), c)),
         1 => comp().prop_map(|c| format!("{c}/..")),
         1 => Just("..".to_string()),
@@ -285,18 +304,19 @@ fn hostile_name(base_canary: String) -> BoxedStrategy<String> {
 }
 
 pub fn run(ctx: &mut Ctx) {
-    ctx.rule("archives built by the independent builder with names from a SAFE pool (unique nested paths, explicit dirs >= 0o700, any permission bits on files, no conflicts) or a HOSTILE pool ('..' chains up to 8 deep, absolute paths into a disposable canary directory, NUL, backslash chains, './..' prefixes, duplicates, file/dir conflicts, symlink-typed entries, deep nesting), extracted with ZipArchive::extract and ZipStreamReader::extract into a 12-level nested sandbox under /var/tmp. Oracle: recursive snapshot (type, mode, content hash) of everything outside the target is unchanged; an archive with an unsafe name (C06 string model) returns Err; an all-safe archive returns Ok and the tree equals the model exactly (implied parents, contents, mode & 0o777 for every entry that records one). Non-trivial = has a hostile name, or >=3 safe entries with nesting.");
+    ctx.rule("archives built by the independent builder with names from a SAFE pool (unique nested paths, explicit dirs >= 0o700, any permission bits on files, no conflicts) or a HOSTILE pool ('..' chains up to 8 deep, absolute paths into a disposable canary directory, NUL, backslash chains, mixed '\\' and '/' separators in front of a '..' chain, './..' prefixes, duplicates, file/dir conflicts, symlink-typed entries, deep nesting), central directory order shuffled against the physical order in a third of the cases; extracted with ZipArchive::extract and ZipStreamReader::extract into a 12-level nested sandbox under /var/tmp. Oracle: recursive snapshot (type, mode, content hash) of everything outside the target is unchanged; an archive with an unsafe name (C06 string model) returns Err; an all-safe archive returns Ok and the tree equals the model exactly (implied parents, contents, mode & 0o777 for every entry that records one). Non-trivial = has a hostile name, or >=3 safe entries with nesting.");
     ctx.assume("hostile names use only zv_-prefixed components, at most 8 '..' (cannot leave the 12-level nest) and absolute paths only under the run's own canary directory, so even a tree with broken sanitisation cannot touch anything real");
     ctx.assume("symlink-typed entries are extracted as regular files (what the code does; it cannot escape)");
-    let n = ctx.q(3000, 40000);
+    let n = ctx.q(8000, 60000);
     let canary = format!("/var/tmp/zv-c07-{}-canarybait", std::process::id());
     ctx.explore::<Case>(
         "extract",
         n,
         &|| {
             let canary = canary.clone();
-            let safe = (safe_case(), any::<bool>()).prop_map(|(entries, stream)| Case { entries, safe: true, stream });
-            let hostile = (safe_case(), proptest::collection::vec((hostile_name(canary), any::<bool>(), any::<bool>(), 0u32..512, crate::refzip::content::content(300)), 1..4), any::<u16>(), any::<bool>()).prop_map(|(mut entries, hs, at, stream)| {
+            let shuf = || prop_oneof![2 => Just(None), 1 => any::<u64>().prop_map(Some)];
+            let safe = (safe_case(), any::<bool>(), shuf()).prop_map(|(entries, stream, central_shuffle)| Case { entries, safe: true, stream, central_shuffle });
+            let hostile = (safe_case(), proptest::collection::vec((hostile_name(canary), any::<bool>(), any::<bool>(), 0u32..512, crate::refzip::content::content(300)), 1..4), any::<u16>(), any::<bool>(), shuf()).prop_map(|(mut entries, hs, at, stream, central_shuffle)| {
                 for (i, (name, dir, sym, mode, content)) in hs.into_iter().enumerate() {
                     let pos = ((at as usize + i * 7919) * (entries.len() + 1)) >> 16;
                     entries.insert(pos.min(entries.len()), Ent { name, dir, symlink_typed: sym, mode, content, method: 0 });
@@ -306,13 +326,15 @@ pub fn run(ctx: &mut Ctx) {
                     let e = entries[0].clone();
                     entries.push(Ent { dir: !e.dir, ..e });
                 }
-                Case { entries, safe: false, stream }
+                Case { entries, safe: false, stream, central_shuffle }
             });
             prop_oneof![1 => safe, 1 => hostile].boxed()
         },
         &|c: &Case, info: &mut Info| {
             info.label(if c.stream { "stream-extract" } else { "seekable-extract" });
             info.label(if c.safe { "safe-pool" } else { "hostile-pool" });
+            info.label_if(c.central_shuffle.is_some(), "central-order-shuffled");
+            info.label_if(c.entries.iter().any(|e| e.name.contains('\\') && e.name.contains("/..")), "mixed-separator-climb");
             info.nontrivial = !c.safe || (c.entries.len() >= 3 && c.entries.iter().any(|e| e.name.contains('/')));
             match catch(|| check(c, info)) {
                 Ok(Ok(())) => Verdict::Pass,
